@@ -1319,6 +1319,10 @@ val other_screen : btype -> btype
 
 val holds_C17 : vt -> func -> vt -> bool
 
+val no_save_modes : dec_mode list -> bool
+
+val holds_C17_switch : vt -> func -> vt -> bool
+
 val holds_C17_resize : vt -> vt -> bool
 
 val strictly_sorted : nat list -> bool
